@@ -193,8 +193,9 @@ pairs in list order — a real `HashMap` iterates in an unspecified order); the 
 `WorkerProperties` (`is_available`, `has_pending_key`, `is_processing_key`) are the model's;
 `Job` is `Factory.Job` (only `key` is read), job keys are `Nat`. `DefaultHasher` is the last value
 fed (`Option Nat`), `finish()` the uninterpreted `sip`; the custom hasher is the uninterpreted `h`.
-`QueuerRouting`/`StickyQueuerRouting::choose_target_worker` are NOT translated (`while let` loops
-with index assignment are outside the subset).""",
+Of `QueuerRouting`/`StickyQueuerRouting::choose_target_worker` only the early-return prefix before
+the `while let … pop_front()` loop is translated (mode `before_loop`: `some r` = returned `r`,
+`none` = the deque loop is reached); the loop itself (index assignment) is outside the subset.""",
     "fn_params": "(sip : Option Nat → Nat) (h : Nat → Nat → Nat)",
     "fn_args": "sip h",
     "aliases": {"WorkerId": "usize"},
@@ -203,7 +204,9 @@ with index assignment are outside the subset).""",
     "field_types": {"Job": {"key": "TKey"}},
     "foreign_rust": "struct KeyPersistentRouting {}",
     "source_types": [{"name": "RoundRobinRouting", "fields": ["last_worker"]},
-                     {"name": "CustomRouting", "fields": ["hasher"]}],
+                     {"name": "CustomRouting", "fields": ["hasher"]},
+                     {"name": "QueuerRouting", "fields": []},
+                     {"name": "StickyQueuerRouting", "fields": []}],
     "calls": {"DefaultHasher::new": ("(none : Option Nat)", "DefaultHasher")},
     "mutarg_methods": {"hash": "(some {0})"},
     "methods": [
@@ -225,6 +228,10 @@ with index assignment are outside the subset).""",
          "theorem": "C14.generated_round_robin_choice_eq_model"},
         {"container": "Router for CustomRouting", "name": "choose_target_worker",
          "theorem": "C14.generated_custom_choice_eq_model"},
+        {"container": "Router for QueuerRouting", "name": "choose_target_worker", "mode": "before_loop",
+         "lean": "QueuerRouting.choose_before_deque", "theorem": "C14.generated_queuer_prefix_eq_model"},
+        {"container": "Router for StickyQueuerRouting", "name": "choose_target_worker", "mode": "before_loop",
+         "lean": "StickyQueuerRouting.choose_before_deque", "theorem": "C14.generated_sticky_queuer_prefix_eq_model"},
     ],
 })
 
